@@ -110,9 +110,43 @@ func nonceBytes(id int) []byte {
 		return h[:]
 	case 3:
 		return []byte(strings.Repeat("long-nonce-", 40))
+	case 4, 5, 6, 7, 8: // lengths around the sizes the implementation works with: scalar (32), hash output (48), 64
+		l := []int{31, 32, 33, 48, 64}[id-4]
+		out := make([]byte, 0, 96)
+
+		for i := 0; len(out) < l; i++ {
+			h := sha256.Sum256([]byte(fmt.Sprintf("nonce-%d-%d", id, i)))
+			out = append(out, h[:]...)
+		}
+
+		return out[:l]
 	default:
 		return []byte(fmt.Sprintf("nonce-%d", id))
 	}
+}
+
+// aliasNonce: another nonce of the same length whose big-endian value differs from the given one by the group order
+// (nil when the nonce is shorter than a scalar).  Whatever a verifier does with nonce bytes, two different byte strings
+// are two different nonces.
+func aliasNonce(nonce []byte) []byte {
+	if len(nonce) < 32 {
+		return nil
+	}
+
+	v := new(big.Int).SetBytes(nonce)
+	w := new(big.Int).Add(v, groupOrder())
+
+	if w.BitLen() > 8*len(nonce) {
+		w = new(big.Int).Sub(v, groupOrder())
+		if w.Sign() < 0 {
+			return nil
+		}
+	}
+
+	out := make([]byte, len(nonce))
+	w.FillBytes(out)
+
+	return out
 }
 
 func msgsOf(ids []int) [][]byte {
@@ -566,6 +600,8 @@ func runCaseOnce(kind string, c *Case, withCoq bool, put func(*hx.Record)) {
 			case a.Pos == 11 && len(nonce) > 0: // the same nonce with its last byte changed
 				nn = append([]byte{}, nonce...)
 				nn[len(nn)-1] ^= 1
+			case a.Pos == 12: // same length, value shifted by the group order
+				nn = aliasNonce(nonce)
 			default:
 				nn = nonceBytes(c.Nonce + 1 + a.Pos)
 			}
@@ -987,6 +1023,9 @@ func listAttacks(c *Case, r *hx.Rng) []Attack {
 
 	out = append(out, Attack{Kind: "nonce", Pos: r.Intn(3)}, Attack{Kind: "nonce", Label: "extended", Pos: 10},
 		Attack{Kind: "nonce", Label: "last-byte", Pos: 11}, Attack{Kind: "key"})
+	if aliasNonce(nonceBytes(c.Nonce)) != nil {
+		out = append(out, Attack{Kind: "nonce", Label: "plus-order", Pos: 12})
+	}
 
 	return out
 }
@@ -1474,7 +1513,7 @@ func main() {
 		for _, s := range subsetsOf(n) {
 			cnt++
 			r := rng.Fork(cnt)
-			c := &Case{Level: "prim", Msgs: randomMsgs(r, n), R: s, Nonce: r.Intn(4), Key: r.Intn(3)}
+			c := &Case{Level: "prim", Msgs: randomMsgs(r, n), R: s, Nonce: r.Intn(9), Key: r.Intn(3)}
 			c.Attacks = listAttacks(c, r)
 			runCase("exhaustive", c, tr)
 		}
@@ -1485,7 +1524,7 @@ func main() {
 		for _, s := range subsetsOf(n) {
 			cnt++
 			r := rng.Fork(cnt)
-			c := &Case{Level: "tink", Msgs: randomMsgs(r, n), R: s, Nonce: r.Intn(4), Key: r.Intn(2)}
+			c := &Case{Level: "tink", Msgs: randomMsgs(r, n), R: s, Nonce: r.Intn(9), Key: r.Intn(2)}
 			c.Attacks = listAttacks(c, r)
 			runCase("exhaustive-tink", c, tr)
 		}
@@ -1511,7 +1550,7 @@ func main() {
 			lvl = "tink"
 		}
 
-		c := &Case{Level: lvl, Msgs: randomMsgs(r, n), R: revealList(r, randomSubset(r, n), n), Nonce: r.Intn(4), Key: r.Intn(3)}
+		c := &Case{Level: lvl, Msgs: randomMsgs(r, n), R: revealList(r, randomSubset(r, n), n), Nonce: r.Intn(9), Key: r.Intn(3)}
 		c.Attacks = listAttacks(c, r)
 		runCase("random", c, tr)
 	}
@@ -1531,7 +1570,7 @@ func main() {
 			lvl = "tink"
 		}
 
-		c := &Case{Level: lvl, Msgs: randomMsgs(r, n), R: randomSubset(r, n), Nonce: r.Intn(4), Key: r.Intn(3), Bytes: true}
+		c := &Case{Level: lvl, Msgs: randomMsgs(r, n), R: randomSubset(r, n), Nonce: r.Intn(9), Key: r.Intn(3), Bytes: true}
 		c.Attacks = append([]Attack{{Kind: "honest"}}, structuralAlters(c)...)
 		c.Attacks = append(c.Attacks, alterAttacks(c, r, 24, false)...)
 		c.Attacks = append(c.Attacks, addqAttacks(c)...)
@@ -1580,7 +1619,7 @@ func main() {
 			}
 
 			c := &Case{Level: "tinkp", Kinds: sh.kinds, Primary: sh.primary, Signer: sh.signer, Msgs: randomMsgs(r, n),
-				R: revealList(r, randomSubset(r, n), n), Nonce: r.Intn(4), Key: r.Intn(2)}
+				R: revealList(r, randomSubset(r, n), n), Nonce: r.Intn(9), Key: r.Intn(2)}
 			c.Attacks = listAttacks(c, r)
 
 			if signerKind(c) != "RAW" {
@@ -1604,7 +1643,7 @@ func main() {
 	for _, n := range longSizes {
 		cnt++
 		r := rng.Fork(cnt)
-		c := &Case{Level: "prim", Long: true, Msgs: randomMsgs(r, n), Nonce: r.Intn(4), Key: r.Intn(3)}
+		c := &Case{Level: "prim", Long: true, Msgs: randomMsgs(r, n), Nonce: r.Intn(9), Key: r.Intn(3)}
 		a := r.Intn(n - 257)
 		c.R = []int{a, a + 255, a + 256, a + 257, r.Intn(n), n - 1}
 
@@ -1653,7 +1692,7 @@ func main() {
 			n = []int{7, 8, 15, 16, 17, 24, 31}[r.Intn(7)]
 		}
 
-		c := &Case{Level: "prim", Msgs: randomMsgs(r, n), R: randomSubset(r, n), Nonce: r.Intn(4), Key: r.Intn(3)}
+		c := &Case{Level: "prim", Msgs: randomMsgs(r, n), R: randomSubset(r, n), Nonce: r.Intn(9), Key: r.Intn(3)}
 		c.Attacks, c.Tr = forgeAttacks(c, r)
 		c.Attacks = append([]Attack{{Kind: "honest"}}, c.Attacks...)
 		runCase("forge", c, tr)
@@ -1668,6 +1707,10 @@ func main() {
 	for i := 0; i < nCred; i++ {
 		cnt++
 		cc := randomCred(rng.Fork(cnt))
+		if i%4 == 3 {
+			mixedMember(rng.Fork(cnt+100000), cc)
+		}
+
 		if f := os.Getenv("C17_FORM"); f != "" {
 			cc.Form = f
 		}
@@ -1684,7 +1727,7 @@ func main() {
 		cnt++
 		r := rng.Fork(cnt)
 		n := 1 + r.Intn(6)
-		c := &Case{Level: "prim", Msgs: randomMsgs(r, n), R: randomSubset(r, n), Nonce: r.Intn(4), Key: r.Intn(3)}
+		c := &Case{Level: "prim", Msgs: randomMsgs(r, n), R: randomSubset(r, n), Nonce: r.Intn(9), Key: r.Intn(3)}
 		c.Attacks = alterAttacks(c, r, 0, true)
 		runCaseOpt("alter-all", c, tr, false)
 	}
